@@ -299,11 +299,18 @@ def extract_playback(src, t0dir, workdir, inst):
     rc, wall, _ = run_cmd(cmd, src, lf, timeout=inst.get("timeout", 900) * 2, mem_gb=inst.get("mem_gb", 20))
     shutil.rmtree(tdir, ignore_errors=True)
     txt = open(lf, errors="replace").read()
-    # the printed test is fenced in ```; be tolerant
-    m = RE_PLAYBACK.search(txt)
-    if not m:
-        return None, None
-    return m.group(2), m.group(1)
+    # one fenced block per failed check AND per satisfied cover witness; keep the failed checks only
+    tests = []
+    for blk in re.split(r"Concrete playback unit test for `[^`]*`:\s*\n```", txt)[1:]:
+        blk = blk.split("```")[0]
+        mc = re.search(r"/// Check for `(\w+)`: \"(.*?)\"\s*\n", blk, re.S)
+        cls, desc = (mc.group(1), mc.group(2)) if mc else ("?", "?")
+        if cls == "cover":
+            continue
+        m = RE_PLAYBACK.search(blk)
+        if m and not is_bound_failure(desc):
+            tests.append((m.group(2), m.group(1), desc))
+    return tests
 
 
 KANI_HOME = os.path.expanduser("~/.kani/kani-0.68.0")
@@ -395,7 +402,7 @@ def select_instances(prop, tier, seed, only):
 
 def check_property(prop_id, prop, tier, seed, only=None, jobs=None):
     t_start = time.time()
-    all_roles = set(prop.get("kf_roles", []))
+    all_roles = set(prop.get("kf_roles_all", prop.get("kf_roles", [])))
     known = load_known_findings()
     status = {"violations": [], "known_seen": [], "inconclusive": [], "results": []}
     scratch = src = None
@@ -446,28 +453,36 @@ def check_property(prop_id, prop, tier, seed, only=None, jobs=None):
             with ThreadPoolExecutor(max_workers=njobs) as ex:
                 pbs = list(ex.map(lambda r: extract_playback(src, t0dir, scratch, r["inst"]), fails))
             tests = []
-            for res, (tname, tsrc) in zip(fails, pbs):
-                if not tname:
+            for res, pb in zip(fails, pbs):
+                if not pb:
                     res["verdict"] = "INCONCLUSIVE"
                     res["reason"] = "counter-example could not be extracted (no concrete playback): " + res["reason"]
                     status["inconclusive"].append(res)
                 else:
-                    res["replay"] = {"test_name": tname, "test_src": tsrc}
-                    tests.append((res["inst"], tname, tsrc))
+                    res["replay"] = {"tests": [{"test_name": t[0], "test_src": t[1], "check": t[2]} for t in pb[:4]]}
+                    for t in pb[:4]:
+                        tests.append((res["inst"], t[0], t[1]))
+            dev, rel = {}, {}
             if tests:
                 dev = native_replay_batch(src, scratch, prop, tests, release=False)
-                rel = native_replay_batch(src, scratch, prop, tests, release=True)
+                # release semantics only where a new violation may be reported (witnesses of open known findings: dev only)
+                rtests = [t for t in tests if not (t[0].get("kf_witness") and dev[t[1]][0] == "reproduced")]
+                rel = native_replay_batch(src, scratch, prop, rtests, release=True) if rtests else {}
+                for t in tests:
+                    rel.setdefault(t[1], ("skipped", ""))
             for res in fails:
                 if "replay" not in res:
                     continue
                 inst = res["inst"]
-                tname = res["replay"]["test_name"]
-                d, dmsg = dev[tname]
-                r, rmsg = rel[tname]
-                res["replay"].update({"native_dev": d, "native_dev_msg": dmsg, "native_release": r, "native_release_msg": rmsg})
-                log("[%s]   %s native replay: dev profile=%s, release semantics=%s | %s" % (
-                    prop_id, res["name"], d, r, (dmsg or rmsg).replace("\n", " ")[:200]))
-                if d == "reproduced" or r == "reproduced":
+                repro = False
+                for t in res["replay"]["tests"]:
+                    d, dmsg = dev[t["test_name"]]
+                    r, rmsg = rel[t["test_name"]]
+                    t.update({"native_dev": d, "native_dev_msg": dmsg, "native_release": r, "native_release_msg": rmsg})
+                    log("[%s]   %s [%s] native replay: dev profile=%s, release semantics=%s | %s" % (
+                        prop_id, res["name"], t["check"][:60], d, r, (dmsg or rmsg).replace("\n", " ")[:200]))
+                    repro = repro or d == "reproduced" or r == "reproduced"
+                if repro:
                     role = inst.get("kf_witness")
                     if role and role in open_roles:
                         what = [f for f in known if f["role"] == role][0]["what"]
@@ -477,7 +492,8 @@ def check_property(prop_id, prop, tier, seed, only=None, jobs=None):
                         status["violations"].append({"harness": res["name"], "path": path, "reason": res["reason"]})
                 else:
                     res["verdict"] = "INCONCLUSIVE"
-                    res["reason"] = "solver counter-example did not reproduce natively (%s/%s): %s %s" % (d, r, res["reason"], dmsg[-300:])
+                    res["reason"] = "solver counter-example did not reproduce natively: %s | %s" % (
+                        res["reason"], "; ".join("%s: dev=%s rel=%s %s" % (t["check"][:40], t["native_dev"], t["native_release"], t["native_dev_msg"][-200:]) for t in res["replay"]["tests"]))
                     status["inconclusive"].append(res)
     except Inconclusive as e:
         log("[%s] INCONCLUSIVE: %s" % (prop_id, e))
@@ -511,10 +527,9 @@ def write_replay_file(prop_id, res, inst, tier, seed, cuts):
     path = os.path.join(d, "%s-%s.json" % (prop_id, res["name"]))
     doc = {"property": prop_id, "harness": res["harness"], "instance": res["name"], "file": inst["file"],
            "tier": tier, "seed": seed, "failed_checks": res["reason"], "bounds": inst.get("bounds", ""),
-           "cuts": cuts, "playback_test_name": res["replay"]["test_name"], "playback_test_src": res["replay"]["test_src"],
-           "native_dev": res["replay"]["native_dev"], "native_dev_msg": res["replay"]["native_dev_msg"],
-           "native_release": res["replay"]["native_release"], "native_release_msg": res["replay"]["native_release_msg"],
-           "how_to_replay": "cd /verif && ./bin/vcheck --replay %s" % path}
+           "cuts": cuts, "tests": res["replay"]["tests"],
+           "how_to_replay": "cd /verif && ./bin/vcheck --replay %s   (runs the generated unit tests natively, real functions, dev profile and "
+                            "release semantics, against /repo's current tree)" % path}
     json.dump(doc, open(path, "w"), indent=1)
     return path
 
@@ -566,16 +581,18 @@ def replay_file(path, registry):
     prop = registry[prop_id]
     scratch, src = make_scratch(prop_id + ".replay")
     os.makedirs(os.path.join(scratch, "logs"))
-    inject(src, prop, set(prop.get("kf_roles", [])))
+    inject(src, prop, set(prop.get("kf_roles_all", prop.get("kf_roles", []))))
     apply_cuts(src, prop, doc.get("tier", "quick"))
     inst = [i for i in prop["instances"] if i["name"] == doc["instance"]][0]
     rc = 0
-    tests = [(inst, doc["playback_test_name"], doc["playback_test_src"])]
+    tests = [(inst, t["test_name"], t["test_src"]) for t in doc["tests"]]
     for release in (False, True):
-        st, msg = native_replay_batch(src, scratch, prop, tests, release, tag="replay")[doc["playback_test_name"]]
-        log("replay %s (%s): %s %s" % (doc["instance"], "release semantics" if release else "dev profile", st, msg))
-        if st == "reproduced":
-            rc = 1
+        out = native_replay_batch(src, scratch, prop, tests, release, tag="replay")
+        for t in doc["tests"]:
+            st, msg = out[t["test_name"]]
+            log("replay %s [%s] (%s): %s %s" % (doc["instance"], t["check"][:60], "release semantics" if release else "dev profile", st, msg))
+            if st == "reproduced":
+                rc = 1
     if rc:
         log("VIOLATION property=%s replay=%s" % (prop_id, path))
     return rc
